@@ -336,6 +336,45 @@ theorem c20_registrations_consistent : ∀ f ∈ KG.Gen.C20.registrations, Consi
 /-- At least one kind is served with a status subresource (the property's quantifier is not empty). -/
 theorem c20_registrations_some_served : ∃ f ∈ KG.Gen.C20.registrations, (regOf f).served = true := by decide
 
+/-! ## The hooks around `PrepareFor…` (regenerated source text of everything the harness does not run)
+
+The property depends on them implicitly: `Canonicalize` runs AFTER the comparison and the validation (the model's
+`canonicalize` is the identity because the Go body is empty), `AllowCreateOnUpdate`/`AllowUnconditionalUpdate`
+choose the path of a request (`apiStep`), `Validate*` return no errors, the status strategy declares nothing but
+`PrepareForUpdate` (everything else is the embedded main strategy's), and `NewResourceREST` sets no other member of
+the generic store (no `AfterUpdate`, `Decorator`, `BeginUpdate` …). A changed or added hook changes the regenerated
+list and breaks the obligation; the harness then searches with the enlarged budget. -/
+
+theorem c20_hooks_pinned : KG.Gen.C20.hooks = [
+  ("NewDefaultRESTStrategy", "func(namespaced, subStatus bool) DefaultRESTStrategy { return DefaultRESTStrategy{ scheme.Scheme, names.SimpleNameGenerator, namespaced, subStatus, } }"),
+  ("DefaultRESTStrategy.NamespaceScoped", "func() bool { return s.namespaced }"),
+  ("DefaultRESTStrategy.AllowCreateOnUpdate", "func() bool { return true }"),
+  ("DefaultRESTStrategy.AllowUnconditionalUpdate", "func() bool { return true }"),
+  ("DefaultRESTStrategy.Canonicalize", "func(obj runtime.Object) { }"),
+  ("HasObjectMetaSpecStatus", "behavioural: run by the harness"),
+  ("DefaultRESTStrategy.PrepareForCreate", "behavioural: run by the harness"),
+  ("DefaultRESTStrategy.PrepareForUpdate", "behavioural: run by the harness"),
+  ("specEqual", "behavioural: run by the harness"),
+  ("semanticEqual", "behavioural: run by the harness"),
+  ("DefaultRESTStrategy.Validate", "func(ctx context.Context, obj runtime.Object) field.ErrorList { return field.ErrorList{} }"),
+  ("DefaultRESTStrategy.ValidateUpdate", "func(ctx context.Context, obj, old runtime.Object) field.ErrorList { return field.ErrorList{} }"),
+  ("NewDefaultStatusRESTStrategy", "func(namespaced bool) DefaultStatusRESTStrategy { return DefaultStatusRESTStrategy{ NewDefaultRESTStrategy(namespaced, true), } }"),
+  ("DefaultStatusRESTStrategy.PrepareForUpdate", "behavioural: run by the harness")] := rfl
+
+theorem c20_strategy_types_pinned : KG.Gen.C20.strategyTypes = [
+  ("DefaultRESTStrategy", "struct { runtime.ObjectTyper names.NameGenerator namespaced bool subStatus bool }"),
+  ("DefaultStatusRESTStrategy", "struct { rest.RESTCreateUpdateStrategy }")] := rfl
+
+theorem c20_store_members_pinned : KG.Gen.C20.storeMembers = [
+  ("store.NewFunc", "func"),
+  ("store.NewListFunc", "func"),
+  ("store.DefaultQualifiedResource", "schema.GroupResource{Group: internalGVK.Group, Resource: o.GVKR.Resource}"),
+  ("store.CreateStrategy", "o.RESTStrategy"),
+  ("store.UpdateStrategy", "o.RESTStrategy"),
+  ("store.DeleteStrategy", "o.RESTStrategy"),
+  ("store.InMemoryVersioner", "o.HubGroupVersion"),
+  ("statusStore.UpdateStrategy", "DefaultStatusRESTStrategy{o.RESTStrategy}")] := rfl
+
 /-! ## Non-vacuity: the hypotheses are satisfiable by concrete, non-trivial requests
 
 Annotations `none` = absent, `some []` = spelled out as `{}`; both render as "no annotations". -/
